@@ -143,6 +143,7 @@ class Basin(abc.ABC):
         #: `mapping_referrer`).
         self.mapping = mapping or "same"
         self._basinmap = None  # see `basinmap` property
+        self._basinmap_lookup_active = False
         # Create a weakref to the original referrer: If it is an instance
         # of RTDCBase, then garbage collection can clean up properly and
         # the basin instance has no reason to exist without the referrer.
@@ -181,7 +182,15 @@ class Basin(abc.ABC):
         if self._basinmap is None:
             if self.mapping != "same":
                 try:
-                    basinmap = self._basinmap_referrer()[self.mapping]
+                    if self._basinmap_lookup_active:
+                        # The referrer is asking this very basin for the
+                        # mapping feature that is needed to load it.
+                        raise KeyError(self.mapping)
+                    self._basinmap_lookup_active = True
+                    try:
+                        basinmap = self._basinmap_referrer()[self.mapping]
+                    finally:
+                        self._basinmap_lookup_active = False
                 except (KeyError, RecursionError):
                     raise BasinmapFeatureMissingError(
                         f"Could not find the feature '{self.mapping}' in the "
